@@ -69,7 +69,7 @@ const (
 	TypeBoolean
 
 	// Version will be written to the stream and used for compatibility check
-	Version = "1.8"
+	Version = "1.9"
 )
 
 // Catalog used to catalog all AST nodes in a KnowledgeBase.
@@ -246,6 +246,7 @@ func (cat *Catalog) BuildKnowledgeBase() (*KnowledgeBase, error) {
 				RuleName:        amet.RuleName,
 				RuleDescription: amet.RuleDescription,
 				Salience:        amet.Salience,
+				Deleted:         amet.Deleted,
 				WhenScope:       nil,
 				ThenScope:       nil,
 			}
@@ -1984,6 +1985,7 @@ type RuleEntryMeta struct {
 	RuleName        string
 	RuleDescription string
 	Salience        int
+	Deleted         bool
 	WhenScopeID     string
 	ThenScopeID     string
 }
@@ -2004,6 +2006,10 @@ func (meta *RuleEntryMeta) Equals(that Meta) bool {
 			return false
 		}
 		if meta.Salience != ins.Salience {
+
+			return false
+		}
+		if meta.Deleted != ins.Deleted {
 
 			return false
 		}
@@ -2052,6 +2058,11 @@ func (meta *RuleEntryMeta) WriteMetaTo(writer io.Writer) error {
 
 		return err
 	}
+	err = WriteBoolToWriter(writer, meta.Deleted)
+	if err != nil {
+
+		return err
+	}
 	err = WriteStringToWriter(writer, meta.WhenScopeID)
 	if err != nil {
 
@@ -2093,6 +2104,12 @@ func (meta *RuleEntryMeta) ReadMetaFrom(reader io.Reader) error {
 		return err
 	}
 	meta.Salience = int(i)
+	deleted, err := ReadBoolFromReader(reader)
+	if err != nil {
+
+		return err
+	}
+	meta.Deleted = deleted
 	stringFromReader, err = ReadStringFromReader(reader)
 	if err != nil {
 
